@@ -132,7 +132,10 @@ def build(spec: dict):
             source=p["source"], source_intervals=_interval(p["source_intervals"]),
             target=p["target"], target_intervals=_interval(p["target_intervals"]),
             parameter=p["parameter"], weight=p["weight"]))
-    parameters = Parameters.from_dict({k: [[str(i + 1), v] for i, v in enumerate(vs)] for k, vs in _group_params(spec).items()})
+    vary = spec.get("vary")
+    parameters = Parameters.from_dict({
+        k: [[str(i + 1), v, {"vary": (vary is None or f"{k}.{i + 1}" in vary)}] for i, v in enumerate(vs)]
+        for k, vs in _group_params(spec).items()})
     data = {}
     for ds in spec["datasets"]:
         arr = np.array(ds["data"], dtype=np.float64)      # model x global
